@@ -447,8 +447,12 @@ class _Run:
 
 
 def _finish(case: dict, trace: env.Trace, box: dict, res: Any, loop: env.VLoop) -> list[str]:
+    return finish_lines(case, trace, box, isinstance(res, env.Deadlock) or loop.deadlocked)
+
+
+def finish_lines(case: dict, trace: env.Trace, box: dict, deadlocked: bool) -> list[str]:
     lines = list(trace.lines)
-    if isinstance(res, env.Deadlock) or loop.deadlocked:
+    if deadlocked:
         lines.append("deadlock")
     peer = box.get("peer")
     if peer is not None:
@@ -472,11 +476,20 @@ def run_tls(case: dict) -> list[str]:
         return run_tls_server(case)
     trace = env.Trace()
     box: dict[str, Any] = {}
+    inj = make_injection(case)
+    box["inj"] = inj
+    with injecting(contexts()[0], inj):
+        res, loop = env.run(session_tls(case, trace, box), trace)
+    return _finish(case, trace, box, res, loop)
+
+
+def session_tls(case: dict, trace: env.Trace, box: dict):
+    """targets tls / tlsclient as a session (see c12_run: run alone by run_tls, or next to other sessions by c12_multi)"""
     spec = case["spec"]
     via_client = case["target"] == "tlsclient"
 
     async def main() -> None:
-        backend = env.HBackend(trace, lock_kind=case.get("lock", "fair"))
+        backend = env.make_backend(trace, lock_kind=case.get("lock", "fair"))
         peer = Peer()
         box["peer"] = peer
         tr = PipeTransport(backend, trace, env.Script([]), peer=peer, log=False)
@@ -565,17 +578,23 @@ def run_tls(case: dict) -> list[str]:
         else:
             await R._quiet(tls.aclose())
 
-    inj = make_injection(case)
-    box["inj"] = inj
-    with injecting(contexts()[0], inj):
-        res, loop = env.run(main, trace)
-    return _finish(case, trace, box, res, loop)
+    return main
 
 
 def run_tls_server(case: dict) -> list[str]:
     """the client object a request handler gets from AsyncTCPNetworkServer(ssl=...): senders are tasks started by
     on_connection, the reader is the server's own request receiver (recv() for StreamProtocol, recv_into() for
     BufferedStreamProtocol)"""
+    trace = env.Trace()
+    box: dict[str, Any] = {}
+    inj = make_injection(case)
+    box["inj"] = inj
+    with injecting(contexts()[1], inj):
+        res, loop = env.run(session_tls_server(case, trace, box), trace)
+    return _finish(case, trace, box, res, loop)
+
+
+def session_tls_server(case: dict, trace: env.Trace, box: dict):
     import logging
 
     from easynetwork.exceptions import StreamProtocolParseError
@@ -584,12 +603,10 @@ def run_tls_server(case: dict) -> list[str]:
     from easynetwork.servers.handlers import AsyncStreamRequestHandler
     from vlib import sers
 
-    trace = env.Trace()
-    box: dict[str, Any] = {}
     spec = case["spec"]
 
     async def main() -> None:
-        backend = env.HBackend(trace, lock_kind=case.get("lock", "fair"))
+        backend = env.make_backend(trace, lock_kind=case.get("lock", "fair"))
         peer = Peer(server_side=False)
         box["peer"] = peer
         tr = PipeTransport(backend, trace, env.Script([]), peer=peer, log=False)
@@ -674,11 +691,7 @@ def run_tls_server(case: dict) -> list[str]:
         if not peer.handshaken:
             raise core.InfraError("TLS handshake did not complete: " + str(peer.error))
 
-    inj = make_injection(case)
-    box["inj"] = inj
-    with injecting(contexts()[1], inj):
-        res, loop = env.run(main, trace)
-    return _finish(case, trace, box, res, loop)
+    return main
 
 
 # ------------------------------------------------------------------------------------------------
